@@ -33,4 +33,9 @@ s=s.replace("""	// `children` stays in declaration order: parseArray emits the a
 	return nil""",1); open(p,'w').write(s)
 PY
 git diff > /verif/selftest/array_children_sorted.diff; git checkout -- .; echo "array_children_sorted C02 extensions/omniv21/transform/validate.go" >> /verif/selftest/INDEX
+python3 - <<'PY'
+p='extensions/omniv21/fileformat/csv/format.go'; s=open(p).read()
+s=s.replace("delim == 0 || delim == '\"' ||","delim == 0 ||",1); open(p,'w').write(s)
+PY
+git diff > /verif/selftest/csv_quote_delimiter_allowed.diff; git checkout -- .; echo "csv_quote_delimiter_allowed C03 extensions/omniv21/fileformat/csv/format.go" >> /verif/selftest/INDEX
 echo "selftest corpus: $(wc -l < /verif/selftest/INDEX) edits"
